@@ -11,7 +11,8 @@ META = {
             "verifies for the sender's own key - a re-broadcast copy of another member's valid signature bytes does not count) and the submission gate (beacon honest+(n-honest)/2, tECDSA quorum, inactivity honest threshold). TLC "
             "checks exhaustively (all histories of up to 4 messages over the message alphabet incl. copied signatures, n=4, every threshold) that the "
             "set holds the own signature plus at most one signature per operating member that signed the same hash with its "
-            "network key, and that submission happens only at the threshold. TLC-generated histories are fed to the REAL states "
+            "network key, and that submission happens only at the NOMINAL threshold of the group parameters for every actual "
+            "size m (quorum <= m <= n) of the signing group / wallet. TLC-generated histories are fed to the REAL states "
             "with REAL ECDSA-signed messages; stored-message counts after every Receive, the signature map after verification "
             "and the map handed to the submitter/chain are compared; the gates run through the real submit functions.",
     "note": "Trusted: the abstraction between message classes and real messages (internal/verifsup Realize: 3 realizations of "
@@ -64,7 +65,7 @@ def run(ctx):
     cases = ctx.read_emitted(g, "supportcases.ndjson")
     gates = ctx.read_emitted(g, "gates.ndjson")
     ncopy = sum(1 for c in cases if any(m["sig"] == "copy" for m in c["msgs"]))
-    if len(cases) < 12000 or ncopy < 3000 or len(gates) != 1 or len(gates[0]) < 20:
+    if len(cases) < 12000 or ncopy < 3000 or len(gates) != 1 or len(gates[0]) < 100:
         ctx.broken("case generation produced %d cases / %d gate sets" % (len(cases), len(gates)))
     multi = sum(1 for c in cases if len(c["firstWins"]) >= 3)
     dup = sum(1 for c in cases if len(c["firstWins"]) != len(c["dropAll"]))
@@ -81,6 +82,10 @@ def run(ctx):
                            ("pkg/tbtc", "^TestVerif_C13_Tbtc", "tbtc")):
         go = ctx.gotest(pkg, rx, ["c13_test.go"], inputs=inputs, extra_overlay=OV, label=label, timeout=ctx.pick(900, 3000))
         ctx.absorb(go)
+        if not ctx.violations and label == "tbtc":
+            cnt = (go.reports.get("tbtc_gates") or {}).get("counters") or {}
+            if cnt.get("tecdsa.gate.smallgroup", 0) < 10 or cnt.get("inactivity.gate.smallgroup", 0) < 10:
+                ctx.broken("gates were not exercised with signing groups smaller than the nominal size: %s" % cnt)
         if not ctx.violations and label != "tbtc":
             rep = list(go.reports.values())[0]
             cnt = rep.get("counters") or {}
@@ -92,7 +97,8 @@ def run(ctx):
              "both sets of non-operating members, replayed on the real signing / verification / submission states of the three "
              "protocols with real ECDSA operator keys; compared: stored-message count after every Receive, signature map "
              "(members and exact signature bytes) after verification and as handed to the submitter / chain; gates: every map "
-             "size 0..n for every (honest, quorum) through the real SubmitDKGResult / SubmitResult / SubmitClaim; production "
+             "size 0..m for every (honest, quorum) and every actual group / wallet size m in [quorum, n] through the real "
+             "SubmitResult / SubmitClaim (beacon SubmitDKGResult: chain config only, m = n); production "
              "signers on every signature realization. Non-trivial = non-empty histories, gate and signer cases.",
         assumptions=["abstraction function of internal/verifsup.Realize (classes -> real messages) is faithful",
                      "tECDSA / inactivity states are driven with a signer equivalent to the production one (checked separately)",
